@@ -132,6 +132,29 @@ fn failed_overwrite(kind: &str) -> i32 {
     }
 }
 
+/// F-k: with `disable_normalization_check` the pre-log validation accepts a vector whose squared norm overflows under
+/// Cosine / InnerProduct: normalisation multiplies every lane by 1/sqrt(inf) = 0, the all-zero result is finite, is
+/// logged and acknowledged, and the replay-time normalisation then refuses it ("norm is zero"): restart fails.
+fn zero_after_normalize() -> i32 {
+    let tmp = tempfile::TempDir::new().unwrap();
+    let dir = tmp.path();
+    let metric = DistanceMetric::Cosine;
+    let b = HnswBackend::with_persistence_with_hnsw_params(4, metric, vec![], vec![], 10_000, dir, FsyncPolicy::Always, 0, 0, 16, 200, true).expect("create backend");
+    b.insert(7, vec![1.0, 0.0, 0.0, 0.0], HashMap::new()).unwrap();
+    let r = b.insert(8, vec![3.0e38, 3.0e38, 0.0, 0.0], HashMap::new());
+    if let Err(e) = r { println!("NOT-REPRODUCED: the engine refused the vector: {}", e); return 0; }
+    let stored = b.fetch_document(8);
+    drop(b);
+    match HnswBackend::recover_with_hnsw_params(4, metric, dir, 10_000, FsyncPolicy::Always, 0, 0, MetricsCollector::new(), 16, 200, true) {
+        Err(e) => { println!("REPRODUCED: insert of [3e38, 3e38, 0, 0] was acknowledged (stored as {:?}) and the restart then fails: {:#}", stored, e); 1 }
+        Ok(rb) => {
+            if rb.fetch_document(7).is_some() && rb.fetch_document(8).map(|v| v.iter().map(|x| x.to_bits()).collect::<Vec<_>>()) == stored.map(|v| v.iter().map(|x| x.to_bits()).collect::<Vec<_>>()) {
+                println!("NOT-REPRODUCED: restart succeeded with both documents bit-identical"); 0
+            } else { println!("REPRODUCED: restart succeeded but the recovered collection differs from the acknowledged one"); 1 }
+        }
+    }
+}
+
 /// F-b: HotTier insert (stats -> documents) vs delete/get (documents -> stats) lock-order inversion.
 fn hot_tier_deadlock(secs: u64) -> i32 {
     let tier = Arc::new(HotTier::new(1_000_000, Duration::from_secs(3600), DistanceMetric::Euclidean));
@@ -332,6 +355,7 @@ fn main() {
         Some("fallback-snapshot") => fallback_snapshot(),
         Some("midframe-eof") => midframe_eof(),
         Some("failed-overwrite") => failed_overwrite(args.get(2).map(|s| s.as_str()).unwrap_or("nan")),
+        Some("zero-after-normalize") => zero_after_normalize(),
         Some("periodic-idle") => periodic_idle(),
         Some("periodic-idle-inner") => periodic_idle_inner(args.get(2).map(|s| s.as_str()).unwrap_or("/nonexistent")),
         Some("crash-after-unlink") => crash_after_unlink(),
